@@ -26,6 +26,7 @@ class Node:
         self.level = 1000
         self.chain_id = B.encode(b'\x7a\x06\xa7\x70', 'Net')
         self.unknown = []
+        self.counter_at = {self.level: counter}      # counter in the context of every block produced so far
 
     def block_hash(self, offset=0):
         return B.encode((self.level - offset).to_bytes(32, 'big'), 'B')
@@ -39,6 +40,22 @@ class Node:
             self.counter += sum(1 for c in g['contents'] if c.get('source') == self.pkh)
         self.mempool = []
         self.level += 1
+        self.counter_at[self.level] = self.counter
+
+    def level_of(self, ref):
+        """Level a block reference denotes: head, head~n, head-n or the hash of a block this node has produced."""
+        if ref.startswith('head'):
+            return self.level - int(re.sub(r'\D', '', ref) or 0)
+        try:
+            return int.from_bytes(B.decode(ref, 'B'), 'big')
+        except Exception:
+            return self.level
+
+    def counter_as_of(self, ref):
+        """The account's counter in the context of the referenced block (a node answers about the block it is asked about)."""
+        lvl = self.level_of(ref)
+        known = [l for l in self.counter_at if l <= lvl]
+        return self.counter_at[max(known)] if known else self.counter_at[min(self.counter_at)]
 
     # -- transport handler ----------------------------------------------------------------------------------------------
     def handler(self, method, url, kwargs):
@@ -56,24 +73,28 @@ class Node:
             return ok({'version': {'major': 22, 'minor': 0}, 'network_version': {'chain_name': 'TEZOS_MAINNET', 'distributed_db_version': 2, 'p2p_version': 1}})
         if path == '/chains/main/chain_id':
             return ok(self.chain_id)
-        if re.match(r'^/chains/main/blocks/[^/]+/header$', path):
-            return ok({'protocol': PROTOCOL, 'level': self.level, 'hash': self.block_hash(), 'chain_id': self.chain_id,
+        m = re.match(r'^/chains/main/blocks/([^/]+)/header$', path)
+        if m:
+            lvl = self.level_of(m.group(1))
+            return ok({'protocol': PROTOCOL, 'level': lvl, 'hash': self.block_hash(self.level - lvl), 'chain_id': self.chain_id,
                        'timestamp': '2026-01-01T00:00:00Z'})
-        if re.match(r'^/chains/main/blocks/[^/]+$', path):
-            return ok({'protocol': PROTOCOL, 'chain_id': self.chain_id, 'hash': self.block_hash(),
-                       'header': {'level': self.level, 'timestamp': '2026-01-01T00:00:00Z'}, 'metadata': {'level_info': {'level': self.level}}})
+        m = re.match(r'^/chains/main/blocks/([^/]+)$', path)
+        if m:
+            lvl = self.level_of(m.group(1))
+            return ok({'protocol': PROTOCOL, 'chain_id': self.chain_id, 'hash': self.block_hash(self.level - lvl),
+                       'header': {'level': lvl, 'timestamp': '2026-01-01T00:00:00Z'}, 'metadata': {'level_info': {'level': lvl}}})
         m = re.match(r'^/chains/main/blocks/[^/]+/context/contracts/(KT1[A-Za-z0-9]+)/script$', path)
         if m:
             # every originated address holds the same trivial contract (parameter nat, storage nat)
             return ok({'code': [{'prim': 'parameter', 'args': [{'prim': 'nat'}]}, {'prim': 'storage', 'args': [{'prim': 'nat'}]},
                                 {'prim': 'code', 'args': [[{'prim': 'CAR'}, {'prim': 'NIL', 'args': [{'prim': 'operation'}]}, {'prim': 'PAIR'}]]}],
                        'storage': {'int': '0'}})
-        m = re.match(r'^/chains/main/blocks/[^/]+/context/contracts/([A-Za-z0-9]+)$', path)
+        m = re.match(r'^/chains/main/blocks/([^/]+)/context/contracts/([A-Za-z0-9]+)$', path)
         if m:
-            return ok({'balance': '1000000000000', 'counter': str(self.counter if m.group(1) == self.pkh else 0)})
-        m = re.match(r'^/chains/main/blocks/[^/]+/context/contracts/([A-Za-z0-9]+)/counter$', path)
+            return ok({'balance': '1000000000000', 'counter': str(self.counter_as_of(m.group(1)) if m.group(2) == self.pkh else 0)})
+        m = re.match(r'^/chains/main/blocks/([^/]+)/context/contracts/([A-Za-z0-9]+)/counter$', path)
         if m:
-            return ok(str(self.counter if m.group(1) == self.pkh else 0))
+            return ok(str(self.counter_as_of(m.group(1)) if m.group(2) == self.pkh else 0))
         if path == '/chains/main/mempool/pending_operations':
             # where a pending group is listed depends on how far the node got with it: validated groups under `applied`, groups
             # injected asynchronously and not looked at yet under `unprocessed` (as objects, or as [hash, operation] pairs)
